@@ -38,7 +38,8 @@ fn export_ctx(i: usize, seed: u64) -> Vec<u8> {
 }
 
 pub fn msg_sets(thorough: bool) -> Vec<Vec<(usize, usize)>> {
-    let mut v = vec![vec![], vec![(29, 7)]];
+    // (an empty plaintext at an odd index is opened through the allocating open)
+    let mut v = vec![vec![], vec![(29, 7), (0, 5), (0, 0), (0, 0)]];
     v.push(vec![(0, 0), (1, 16), (17, 1)]);
     if thorough {
         v.push(vec![(16, 0), (65, 65), (0, 17)]);
